@@ -8,7 +8,9 @@ Files are lists of file-level tokens; the file system is an association list fro
 The directive stream of the project is the textual splice of the files; every directive remembers the include chain
 that was live when it was read.  Since the repair F42 the pending directive is placed when an INCLUDE keyword is met
 (before the file name is looked at), so that a diagnostic about it is raised while the scanner stack still describes
-the file it was written in.
+the file it was written in.  Since the repair of `processEOF` it reports "not all explicit contexts are closed" only at
+the end of the ROOT file (`scannersStack.Empty()`, here: the stack of including files is `[]`); a parenthesis that the
+including file opened before the INCLUDE is no longer counted against the included file.
 -/
 namespace JSight
 open Gen
@@ -61,14 +63,14 @@ def flushPending (st : PScan) : Except ProjErr PScan :=
 
 /-- `scanProject`: the file `cur` is scanned from position `pos`; `stack` = the including files with the positions of
 their INCLUDE directives, innermost first (= `scanner.Stack`, top first). The pending directive is placed at the next
-keyword (INCLUDE too), at ")" and at the end of EVERY file (`processEOF`), where an open parenthesised context is an
-error. -/
+keyword (INCLUDE too), at ")" and at the end of EVERY file (`processEOF`); at the end of the ROOT file (`stack = []`,
+`scannersStack.Empty()`) an open parenthesised context is an error (repair of `processEOF`: before, at the end of every file). -/
 def scanIncFile (fs : FS) : Nat → List (Nat × Nat) → Nat → Nat → List FTok → PScan → Except ProjErr PScan
   | 0, _, _, _, _, _ => .error (.inc .fuel)
-  | _ + 1, _, _, _, [], st =>
+  | _ + 1, stack, _, _, [], st =>
     match flushPending st with
     | .error e => .error e
-    | .ok st' => if anyExplicit st'.ctx.frames then .error (.ctx .unclosedAtEOF) else .ok st'
+    | .ok st' => if stack.isEmpty && anyExplicit st'.ctx.frames then .error (.ctx .unclosedAtEOF) else .ok st'
   | fuel + 1, stack, cur, pos, t :: rest, st =>
     match t with
     | .dir d =>
